@@ -6,6 +6,9 @@ package main
 // at a time.  Which rule (if any) a mutated stream breaks is decided by the model, not here.
 
 import (
+	"fmt"
+	"math/big"
+	"sort"
 	"strings"
 
 	"verif/harness/internal/vh"
@@ -380,4 +383,147 @@ func treeMutation(r *vh.Rng, tree *node, op int) (mutation, bool) {
 		return mutation{}, false
 	}
 	return mutation{treeOps[op].name, path, gencode(root)}, true
+}
+
+// ---- numeric boundaries ----------------------------------------------------------------------------
+
+func beAdd(b []byte, d int) []byte {
+	x := new(big.Int).SetBytes(b)
+	x.Add(x, big.NewInt(int64(d)))
+	if x.Sign() < 0 {
+		x.SetInt64(0)
+	}
+	out := x.Bytes()
+	for len(out) < len(b) {
+		out = append([]byte{0}, out...)
+	}
+	return out
+}
+
+// related says how much leaf y looks like the bound of leaf x (larger = more likely): a value next
+// to its modulus, an element value next to n, natBytes under sibling fields.
+func related(x, y ref) int {
+	score := 0
+	px, py := x.path, y.path
+	// common prefix length in path components
+	cx, cy := strings.Split(px, "/"), strings.Split(py, "/")
+	common := 0
+	for common < len(cx) && common < len(cy) && cx[common] == cy[common] {
+		common++
+	}
+	score += 4 * common
+	low := strings.ToLower(py)
+	for _, w := range []string{"modulus", "/n/", "/n2/", "/q/", "/p/", "order"} {
+		if strings.Contains(low, w) {
+			score += 3
+		}
+	}
+	lx := strings.ToLower(px)
+	for _, w := range []string{"value", "/v/", "/r/", "/c/", "/m/", "lambda", "alpha"} {
+		if strings.Contains(lx, w) {
+			score += 2
+		}
+	}
+	return score
+}
+
+// numericBoundaryCases: see the call site in main.go.
+func numericBoundaryCases(s *Sample, tree *node, budget int) []*tcase {
+	probe := tree.clone()
+	refs := collect(&probe)
+	var bs, us, cs []int
+	for i, x := range refs {
+		switch {
+		case x.x.kind == 'b' && len(x.x.bs) > 0 && len(x.x.bs) <= 1024 && x.role != 'k':
+			bs = append(bs, i)
+		case x.x.kind == 'u' && x.role != 'k':
+			us = append(us, i)
+		case x.x.kind == 'a' || x.x.kind == 'm':
+			cs = append(cs, i)
+		}
+	}
+	type job struct {
+		score int
+		ri    int
+		kind  string
+		set   func(x *node)
+	}
+	var jobs []job
+	_, _, q, hasQ := curveParams(s.Type)
+	for _, i := range bs {
+		x := refs[i]
+		for _, j := range bs {
+			if i == j || string(refs[j].x.bs) == string(x.x.bs) {
+				continue
+			}
+			y := refs[j]
+			sc := related(x, y)
+			bound := append([]byte(nil), y.x.bs...)
+			for _, v := range []struct {
+				k string
+				b []byte
+			}{{"bound", bound}, {"bound+1", beAdd(bound, 1)}, {"bound-1", beAdd(bound, -1)}} {
+				v := v
+				jobs = append(jobs, job{sc, i, "numeric-boundary-" + v.k + "@" + y.path, func(n *node) { n.bs = append([]byte(nil), v.b...) }})
+			}
+		}
+		zero := make([]byte, len(x.x.bs))
+		one := make([]byte, len(x.x.bs))
+		one[len(one)-1] = 1
+		jobs = append(jobs, job{1, i, "numeric-boundary-0", func(n *node) { n.bs = zero }}, job{1, i, "numeric-boundary-1", func(n *node) { n.bs = one }})
+		if hasQ && len(q) > 1 && len(x.x.bs)*2 == len(q) {
+			qb := vh.UnZHex(q).Bytes()
+			for _, v := range []struct {
+				k string
+				b []byte
+			}{{"order", qb}, {"order+1", beAdd(qb, 1)}, {"order-1", beAdd(qb, -1)}} {
+				v := v
+				jobs = append(jobs, job{6, i, "numeric-boundary-" + v.k, func(n *node) { n.bs = append([]byte(nil), v.b...) }})
+			}
+		}
+	}
+	for _, i := range us {
+		for k, j := range cs {
+			if k >= 4 {
+				break
+			}
+			l := uint64(len(refs[j].x.kids) + len(refs[j].x.pairs))
+			for _, v := range []uint64{l, l + 1, l - 1} {
+				v := v
+				if v == refs[i].x.n || l == 0 {
+					continue
+				}
+				jobs = append(jobs, job{2, i, fmt.Sprintf("numeric-boundary-len%+d@%s", int64(v)-int64(l), refs[j].path), func(n *node) { n.n = v }})
+			}
+		}
+		for _, j := range us {
+			if i == j || refs[j].x.n == refs[i].x.n {
+				continue
+			}
+			w := refs[j].x.n
+			for _, v := range []uint64{w, w + 1, w - 1} {
+				v := v
+				jobs = append(jobs, job{related(refs[i], refs[j]) / 2, i, "numeric-boundary-uint@" + refs[j].path, func(n *node) { n.n = v }})
+			}
+		}
+	}
+	sort.SliceStable(jobs, func(a, b int) bool { return jobs[a].score > jobs[b].score })
+	if len(jobs) > budget {
+		jobs = jobs[:budget]
+	}
+	var out []*tcase
+	seen := map[string]bool{}
+	for _, jb := range jobs {
+		root := tree.clone()
+		rr := collect(&root)
+		jb.set(rr[jb.ri].x)
+		b := gencode(root)
+		if seen[string(b)] || string(b) == string(s.Bytes) {
+			continue
+		}
+		seen[string(b)] = true
+		m := mutation{Kind: strings.SplitN(jb.kind, "@", 2)[0], Path: rr[jb.ri].path + " <- " + jb.kind, Bytes: b}
+		out = append(out, &tcase{class: "mut", sample: s, mut: m, stream: b, sm: true})
+	}
+	return out
 }
